@@ -222,9 +222,11 @@ func RunBridgeHistories(c Ctx, rep *report.Report, rng *chain.Rng, o BOpts, next
 				amount := new(big.Int).Mul(big.NewInt(int64(10+ev)), chain.E(18))
 				// locks of Ethereum assets (credited as "c" + symbol — also when the asset's own symbol begins with that letter:
 				// "comp", or a token that calls itself "ceth"), and burns of a Sifchain-native asset (credited in the symbol itself)
-				symbol := []string{"eth", "usdc", "dash", "comp", "ceth"}[ev%5]
+				// ... a burn may name any denom the relayer's symbol table maps to, IBC denoms with their upper-case hash included:
+				// it is credited letter for letter
+				symbol := []string{"eth", "usdc", "dash", "comp", "ceth", "ibc/FEEDFACE"}[ev%6]
 				ctype := ethbridgetypes.ClaimType_CLAIM_TYPE_LOCK
-				if ev%5 == 2 {
+				if ev%6 == 2 || ev%6 == 5 {
 					ctype = ethbridgetypes.ClaimType_CLAIM_TYPE_BURN
 				}
 				switch variant {
